@@ -9,7 +9,7 @@ h11 both parse the emitted bytes; the result must be exactly one response per re
 the headers set (line breaks -> SP, OWS trimmed) and the concatenated writes as the body.
 
 case = {"split": bool, "reqs": [ {"v11": bool, "head": bool, "close": bool, "ops": [op...]} ... ]}
-op   = ["code", int, hex|None] | ["set", T, [T...]] | ["add", T, T] | ["rm", T]
+op   = ["code", int, hex|None] | ["set", T, [T...]] | ["add", T, T] | ["rm", T] | ["new", [[T, [T...]]...]]
      | ["cookie", T, T, {"expires","domain","path","max_age","comment": T|None}, secure, httpOnly, T|None]
      | ["write", hex]
 T    = {"b": hex}  (bytes)  |  {"s": [code points]}  (str)
@@ -65,6 +65,11 @@ def _run_op(req, op) -> str:
                           secure=op[4], httpOnly=op[5], sameSite=_text(op[6]))
         elif k == "write":
             req.write(bytes.fromhex(op[1]))
+        elif k == "new":
+            # the application replaces the header object: Headers({name: [values...], ...}) (valid names only)
+            from twisted.web.http_headers import Headers
+            req.responseHeaders = Headers({_text(nm): [_text(v) for v in vs] for nm, vs in op[1]})
+            return "." * (1 + len(op[1]))
         else:
             raise AssertionError(op)
     except InvalidHeaderName:
@@ -249,6 +254,18 @@ def _enc(t, latin1=False):
         return None
 
 
+def _flat_ops(req):
+    """["new", [[name, values]...]] = forget every header, then set each (one outcome character each)"""
+    out = []
+    for op in req["ops"]:
+        if op[0] == "new":
+            out.append(["reset"])
+            out += [["set", nm, vs] for nm, vs in op[1]]
+        else:
+            out.append(op)
+    return out
+
+
 def _expected(req, outcome: str):
     """independent bookkeeping of what the application set -> dict or a Failure reason (tag, text)"""
     hdr: dict[bytes, list[bytes]] = {}
@@ -266,8 +283,11 @@ def _expected(req, outcome: str):
             h[b"set-cookie"] = list(cookies)
         return (code, reason, h, bool(cookies))
 
-    for op, oc in zip(req["ops"], outcome):
+    for op, oc in zip(_flat_ops(req), outcome):
         k = op[0]
+        if k == "reset":
+            hdr.clear()
+            continue
         if k == "write":
             if not started:
                 started, snap = True, snapshot()
@@ -408,7 +428,7 @@ def oracle(case, obs):
         n += 1
         if not (r["v11"] and not r["close"]):
             break
-    if len(outcomes) != n or any(len(o) != len(r["ops"]) for o, r in zip(outcomes, reqs)):
+    if len(outcomes) != n or any(len(o) != len(_flat_ops(r)) for o, r in zip(outcomes, reqs)):
         return Failure(case, f"{len(outcomes)} requests processed, expected {n}", "requests-processed")
     exps = []
     for r, o in zip(reqs[:n], outcomes):
@@ -425,8 +445,9 @@ def oracle(case, obs):
     cookies_set = [e["cookies"] for e in exps]
 
     def tag_for(i, kind):
-        # one class for everything that follows from an unsanitised reason phrase anywhere on the connection
-        if any(e["reason"] is not None and (b"\r" in e["reason"] or b"\n" in e["reason"]) for e in exps):
+        # one class for everything that follows from a reason phrase that reached the wire with its CR / LF
+        if any(e["reason"] is not None and (b"\r" in e["reason"] or b"\n" in e["reason"]) and e["reason"] in data
+               for e in exps):
             return "reason-phrase-crlf"
         return kind
 
@@ -541,8 +562,13 @@ def _op(op) -> str:
 def to_coq(case):
     if sum(len(op[1]) // 2 for r in case["reqs"] for op in r["ops"] if op[0] == "write") > 6000:
         return None
+    for r in case["reqs"]:
+        if any(o[0] == "new" for o in r["ops"][1:]):
+            return None          # the model has no "replace the Headers object" call; as the first call it is remove + set
+    conn = {"b": b"Connection".hex()}
+    flat = lambda r: [["rm", conn] if o[0] == "reset" else o for o in _flat_ops(r)]
     reqs = [f"(mkCfg {coq_bool(r['v11'])} {coq_bool(r['head'])} {coq_bool(r['close'])}, "
-            f"{coq_list([_op(o) for o in r['ops']], 'op')})" for r in case["reqs"]]
+            f"{coq_list([_op(o) for o in flat(r)], 'op')})" for r in case["reqs"]]
     return coq_list(reqs, "(cfg * list op)%type")
 
 
@@ -665,6 +691,29 @@ def _request(rng, tier, last):
     elif r < 0.4:
         ops.append(["set", {"b": rng.choice([b"transfer-encoding", b"Transfer-Encoding"]).hex()},
                     [{"b": rng.choice([b"chunked", b"gzip", b"identity"]).hex()}]])
+    r2 = rng.random()
+    if r2 < 0.12:
+        # a framing-relevant header that is present with NO values (or removed again): must count as absent
+        nm = rng.choice([b"content-length", b"Content-Length", b"transfer-encoding", b"Transfer-Encoding", b"connection", b"Connection"])
+        tnm = {"s": list(nm)} if rng.random() < 0.3 else {"b": nm.hex()}
+        extra = rng.choice([["set", tnm, []], ["rm", tnm]])
+        ops.insert(rng.randrange(len(ops) + 1) if rng.random() < 0.5 else len(ops), extra)
+    elif r2 < 0.18:
+        # the application installs a fresh Headers object, possibly with empty value lists
+        pool = [b"content-length", b"Content-Length", b"transfer-encoding", b"connection", b"x-a", b"Content-Type", b"etag"]
+        items = []
+        for nm in rng.sample(pool, rng.choice([1, 2, 3])):
+            if nm.lower() == b"content-length":
+                vs = rng.choice([[], [], [str(total).encode()]])
+            elif nm.lower() == b"transfer-encoding":
+                vs = []
+            elif nm.lower() == b"connection":
+                vs = rng.choice([[], [b"keep-alive"]])
+            else:
+                vs = [_val_bytes(rng) for _ in range(rng.choice([0, 1, 2]))]
+            plain = lambda b: {"s": list(b)} if rng.random() < 0.3 and all(c < 128 for c in b) else {"b": b.hex()}
+            items.append([plain(nm), [plain(v) for v in vs]])
+        ops.insert(0, ["new", items])
     ops += [["write", w.hex()] for w in writes]
     if writes and rng.random() < 0.15:
         # header operations after the first write must not reach the wire
@@ -716,6 +765,17 @@ def gen(rng, tier):
                         cases.append({"split": False, "reqs": [{"v11": v11, "head": head, "close": False, "ops": ops},
                                                                {"v11": True, "head": False, "close": True,
                                                                 "ops": [["write", b"next".hex()]]}]})
+    # systematic: Content-Length / Transfer-Encoding present with an empty value list, by every route
+    cl, te = {"b": b"content-length".hex()}, {"b": b"Transfer-Encoding".hex()}
+    for v11 in (True, False):
+        for head in (True, False):
+            for route in ([["set", cl, []]], [["set", cl, [{"b": b"1".hex()}]], ["set", cl, []]], [["new", [[cl, []]]]],
+                          [["set", cl, [{"b": b"1".hex()}]], ["rm", cl]], [["set", te, []]], [["new", [[te, []], [cl, []]]]],
+                          [["add", cl, {"s": [0xD800]}]]):
+                for writes in ([], [b"x"]):
+                    cases.append({"split": False, "reqs": [
+                        {"v11": v11, "head": head, "close": False, "ops": route + [["write", w.hex()] for w in writes]},
+                        {"v11": True, "head": False, "close": True, "ops": [["write", b"next".hex()]]}]})
     return cases
 
 
